@@ -118,9 +118,12 @@ func (cl *cluster) cloneOracle() {
 		status = rn.srv.Replica().GetCloneStatus()
 	}
 	cl.cnt["clone_status_"+status]++
+	if cl.trace {
+		cl.notes = append(cl.notes, fmt.Sprintf("      [clone status %q, B replicas %v]", status, vB.Replicas))
+	}
 	if rw {
 		cl.cnt["clone_rw_states"]++
-		if status != "completed" && status != "NA" {
+		if rn.srv.Replica() != nil && status != "completed" && status != "NA" { // a crashed clone process serves nothing; its controller has not noticed yet
 			cl.violate("clone", "clone-rw-before-completed", fmt.Sprintf("the clone is RW in the new volume while its clone status is %q (clone task: %s)", status, descTask(cl.task)))
 			return
 		}
